@@ -430,7 +430,6 @@ Proof.
              (follows_ok_not_mul _ _ (closing_not_mul_tok c cl CK Hc))).
   destruct (f - nelems src)%nat as [|f'] eqn:E; [lia|]. apply lv_close. exact Hc.
 Qed.
-Print Assumptions movement_list_accepted.
 
 (* M2. the plain prefix is consumed and expanded, whatever follows it (another poryswitch, the end, an error) *)
 Theorem movement_list_prefix : forall switches env_errors c src rest acc f,
@@ -438,7 +437,6 @@ Theorem movement_list_prefix : forall switches env_errors c src rest acc f,
   list_value switches env_errors f (LMov c) true (src ++ rest) acc =
   list_value switches env_errors (f - nelems src) (LMov c) true rest (acc ++ expand src).
 Proof. intros sw ee c src rest acc f CK S MO NE FO. apply plain_prefix_run; assumption. Qed.
-Print Assumptions movement_list_prefix.
 
 (* M3. REJECTION: behind a legal plain prefix, the list stops at an offending token ([list_stop]): the result is the
    error with that message, located at that token:
@@ -457,7 +455,6 @@ Proof.
   destruct (f - nelems src)%nat as [|f'] eqn:E; [lia|].
   rewrite (list_stop_result sw ee c rest _ CK ST). reflexivity.
 Qed.
-Print Assumptions movement_list_rejected.
 
 (* the special cases named in the property *)
 Theorem multiplier_out_of_range_rejected : forall switches env_errors c src x m n r k acc f,
@@ -472,7 +469,6 @@ Proof.
   - eexists. eapply movement_list_rejected; try eassumption; [discriminate|]. eapply stop_nonpos; eassumption.
   - eexists. eapply movement_list_rejected; try eassumption; [discriminate|]. eapply stop_large; try eassumption. lia.
 Qed.
-Print Assumptions multiplier_out_of_range_rejected.
 
 Theorem multiplier_not_a_number_rejected : forall switches env_errors c src x m b r acc f,
   closing c -> step_list src -> mults_ok src ->
@@ -487,7 +483,6 @@ Proof.
     eexists. eapply movement_list_rejected; try eassumption; [discriminate|]. eapply stop_noparse; eassumption.
   - eexists. eapply movement_list_rejected; try eassumption; [discriminate|]. eapply stop_nonint; eassumption.
 Qed.
-Print Assumptions multiplier_not_a_number_rejected.
 
 (* a '*' without a step: at the start of the list, behind a comma, behind 'x * n' *)
 Theorem star_without_step_rejected : forall switches env_errors c src b r acc f,
@@ -498,7 +493,6 @@ Proof.
   eapply movement_list_rejected; try eassumption; [discriminate|apply no_open_step_follows; exact NO|].
   apply (stop_unexpected c (b :: r)); cbn [cur hd]; rewrite Hb; try discriminate. destruct CK as [-> | ->]; discriminate.
 Qed.
-Print Assumptions star_without_step_rejected.
 
 (* a list that is not closed: the end of file is the offending token *)
 Theorem unclosed_movement_list_rejected : forall switches env_errors c src b r acc f,
@@ -509,7 +503,6 @@ Proof.
   eapply movement_list_rejected; try eassumption; [discriminate|apply follows_ok_not_mul; cbn [cur hd]; rewrite Hb; discriminate|].
   apply (stop_unexpected c (b :: r)); cbn [cur hd]; rewrite Hb; try discriminate. destruct CK as [-> | ->]; discriminate.
 Qed.
-Print Assumptions unclosed_movement_list_rejected.
 
 (* M4. EXACTNESS: every token stream (as the lexer produces them: ended by EOF) splits into a grammatical plain list
    with legal multipliers and a rest; at the rest stands 'poryswitch' (the list is not plain: PorySwitchLists.v), or the
@@ -536,7 +529,6 @@ Proof.
   exists v. split; [exact ST|]. intros f acc LF. rewrite PR.
   destruct (f - nelems src)%nat as [|f'] eqn:E'; [lia|]. apply (list_stop_result sw ee c rest v CK ST).
 Qed.
-Print Assumptions movement_list_decided.
 
 (* M5. SOUNDNESS for plain lists: whatever is accepted without meeting a poryswitch is a list of the grammar with legal
    multipliers, closed by the closing token, and the result is its expansion (any fuel) *)
@@ -555,7 +547,6 @@ Proof.
     clear - ST. remember (@None (token * string)) as v eqn:Ev. destruct ST; try discriminate Ev. assumption.
   - rewrite PR in H. replace (f - nelems src)%nat with O in H by lia. discriminate H.
 Qed.
-Print Assumptions movement_list_sound.
 
 Corollary movement_list_sound_no_poryswitch : forall switches env_errors c f ts acc items ts',
   closing c -> eof_ended ts -> no_poryswitch ts ->
@@ -567,7 +558,6 @@ Proof.
   rewrite E in NP. unfold no_poryswitch in NP. apply Forall_app in NP. destruct NP as [_ NP].
   destruct rest as [|y r]; [cbn in P; discriminate|]. apply Forall_inv in NP. exact (NP P).
 Qed.
-Print Assumptions movement_list_sound_no_poryswitch.
 
 (* the decomposition is unique: the list is the stretch up to the first closing token *)
 Theorem movement_list_unique : forall c src1 cl1 r1 src2 cl2 r2,
@@ -585,7 +575,6 @@ Proof.
   - injection E as Ea Eb. exfalso. apply (Forall_inv F1). rewrite Ea. exact Hc2.
   - injection E as Ea Eb. subst b. destruct (IH (Forall_inv_tail F1) s2 (Forall_inv_tail F2) Eb) as (-> & -> & ->). auto.
 Qed.
-Print Assumptions movement_list_unique.
 
 (* ---------- lists WITH poryswitches: the erased source (PorySwitchLists.list_erase) is a list of the grammar ---------- *)
 Lemma flat_mov_grammar nxt src its : ttype nxt <> MUL -> flat true nxt src its ->
@@ -619,7 +608,6 @@ Proof.
   exists src. split; [exact (E [])|]. split; [exact S|]. split; [exact MO|]. split; [reflexivity|].
   apply list_value_ends_closing in H. cbn [closing_of] in H. apply is_inv. exact H.
 Qed.
-Print Assumptions movement_list_sound_poryswitch.
 
 (* ================================================================================================================ *)
 (* 4. Mart lists                                                                                                    *)
@@ -694,7 +682,6 @@ Proof.
   intros sw ee src cl rest acc f S Hc LF. rewrite (mart_prefix_run sw ee src S (cl :: rest) acc f ltac:(discriminate)).
   destruct (f - List.length src)%nat as [|f'] eqn:E; [lia|]. apply lm_close. exact Hc.
 Qed.
-Print Assumptions mart_list_accepted.
 
 (* A2. any other token (a comma, a number, a '*', the end of file ...) is rejected, the error is located at it *)
 Theorem mart_list_rejected : forall switches env_errors src b r acc f,
@@ -704,7 +691,6 @@ Proof.
   intros sw ee src b r acc f S H1 H2 H3 LF. rewrite (mart_prefix_run sw ee src S (b :: r) acc f ltac:(discriminate)).
   destruct (f - List.length src)%nat as [|f'] eqn:E; [lia|]. apply (lm_unexpected sw ee f' true (b :: r)); assumption.
 Qed.
-Print Assumptions mart_list_rejected.
 
 (* A3. exactness *)
 Theorem mart_list_decided : forall switches env_errors ts,
@@ -728,7 +714,6 @@ Proof.
   exists v. split; [exact ST|]. intros f acc LF. rewrite PR.
   destruct (f - List.length src)%nat as [|f'] eqn:E'; [lia|]. apply (mart_stop_result sw ee rest v ST).
 Qed.
-Print Assumptions mart_list_decided.
 
 (* A4. soundness, plain *)
 Theorem mart_list_sound : forall switches env_errors f ts acc items ts',
@@ -746,7 +731,6 @@ Proof.
     clear - ST. remember (@None (token * string)) as v eqn:Ev. destruct ST; try discriminate Ev. assumption.
   - rewrite PR in H. replace (f - List.length src)%nat with O in H by lia. discriminate H.
 Qed.
-Print Assumptions mart_list_sound.
 
 (* A5. soundness for all accepted mart lists: the erased source is a list of identifiers, and it IS the result *)
 Lemma flat_mart_grammar nxt src its : flat false nxt src its -> item_list src /\ its = src.
@@ -766,7 +750,6 @@ Proof.
   exists src. split; [exact (E [])|]. split; [exact S|]. split; [reflexivity|].
   apply list_value_ends_closing in H. cbn [closing_of] in H. apply is_inv. exact H.
 Qed.
-Print Assumptions mart_list_sound_poryswitch.
 
 (* ================================================================================================================ *)
 (* 5. The emitter on the parsed lists                                                                               *)
@@ -786,7 +769,6 @@ Proof.
   intros mp l F. induction F as [|s r Hs F IH]; [reflexivity|]. cbn [emit_steps flat_map].
   rewrite (text_eqb_false _ _ Hs), IH. unfold step_line. rewrite <- !app_assoc. reflexivity.
 Qed.
-Print Assumptions emit_steps_unterminated.
 
 (* E2. the author wrote step_end: the steps up to and including the FIRST one, nothing after it, no second step_end *)
 Theorem emit_steps_terminated : forall mp pre e post, Forall not_end pre -> tlit e = t "step_end" ->
@@ -796,7 +778,6 @@ Proof.
   - rewrite He, text_eqb_refl. unfold step_line. rewrite He, !app_nil_r. reflexivity.
   - rewrite (text_eqb_false _ _ Hs), IH. unfold step_line. rewrite <- !app_assoc. reflexivity.
 Qed.
-Print Assumptions emit_steps_terminated.
 
 (* the items: [val] is the value written for an item token (the literal after constant substitution) *)
 Definition item_line (mp : option text) (val : token -> text) (tk : token) : list instr :=
@@ -809,7 +790,6 @@ Proof.
   intros mp val l F. induction F as [|s r Hs F IH]; [reflexivity|]. cbn [map emit_items flat_map].
   rewrite (text_eqb_false _ _ Hs), IH. unfold item_line. rewrite <- !app_assoc. reflexivity.
 Qed.
-Print Assumptions emit_items_unterminated.
 
 Theorem emit_items_terminated : forall mp (val : token -> text) pre e post,
   Forall (fun x => val x <> t "ITEM_NONE") pre -> val e = t "ITEM_NONE" ->
@@ -819,7 +799,6 @@ Proof.
   - rewrite He, text_eqb_refl. reflexivity.
   - rewrite (text_eqb_false _ _ Hs), IH. unfold item_line. rewrite <- !app_assoc. reflexivity.
 Qed.
-Print Assumptions emit_items_terminated.
 
 (* ================================================================================================================ *)
 (* 6. The statements:  movement NAME { steps }   mart NAME { items }   (optional scope '(global)' / '(local)')       *)
@@ -857,7 +836,6 @@ Proof.
   rewrite (expect_peek_cons2 IDENT a' name _ Hn), (expect_peek_cons2 LBRACE name lb _ Hl).
   rewrite (adv_cons lb body NE). unfold movement_value. reflexivity.
 Qed.
-Print Assumptions parse_movement_header.
 
 Theorem parse_mart_header : forall switches env_errors consts f hd kw name g body,
   stmt_header hd kw name g -> body <> [] ->
@@ -872,7 +850,6 @@ Proof.
   rewrite (expect_peek_cons2 IDENT a' name _ Hn), (expect_peek_cons2 LBRACE name lb _ Hl).
   rewrite (adv_cons lb body NE). unfold mart_value. reflexivity.
 Qed.
-Print Assumptions parse_mart_header.
 
 Lemma mults_ok_app a b : mults_ok (a ++ b) <-> mults_ok a /\ mults_ok b.
 Proof. unfold mults_ok, multipliers. rewrite filter_app. apply Forall_app. Qed.
@@ -890,7 +867,6 @@ Proof.
   rewrite (parse_movement_header sw ee f hd kw name g _ H) by (apply app_nonempty; discriminate).
   rewrite (movement_list_accepted sw ee RBRACE src cl rest [] f rbrace_closing S MO Hc LF). reflexivity.
 Qed.
-Print Assumptions movement_statement_accepted.
 
 (* ... or rejected with the error of the list, located at the offending token *)
 Theorem movement_statement_rejected : forall switches env_errors f hd kw name g src rest b msg,
@@ -902,7 +878,6 @@ Proof.
   rewrite (parse_movement_header sw ee f hd kw name g _ H) by (apply app_nonempty; exact NE).
   rewrite (movement_list_rejected sw ee RBRACE src rest b msg [] f rbrace_closing S MO NE FO ST LF). reflexivity.
 Qed.
-Print Assumptions movement_statement_rejected.
 
 (* S2. every accepted movement statement (poryswitches included): its steps are the expansion of the erased body *)
 Theorem movement_statement_sound : forall switches env_errors f ts tp ts',
@@ -924,7 +899,6 @@ Proof.
   destruct (movement_list_sound_poryswitch sw ee RBRACE f body [] mv ts4 MV) as (src & ER & S & MO & EM & CL).
   exists h, n, lb, body, g, src. repeat (split; [assumption|]). subst ts2 mv. reflexivity.
 Qed.
-Print Assumptions movement_statement_sound.
 
 (* S3. movement statement, emitter: the label line, then the step lines *)
 Theorem movement_top_output : forall mp tl opt name g kw steps,
@@ -960,7 +934,6 @@ Proof.
   eexists. split; [apply movement_statement_accepted; eassumption|].
   rewrite movement_top_output, (emit_steps_unterminated mp _ (expand_not_end src S NE)). reflexivity.
 Qed.
-Print Assumptions movement_statement_compiles_unterminated.
 
 (* S5. COMPOSITION, step_end written by the author (e: its first occurrence as a step, with or without multiplier):
    label, the expanded steps before it, ONE line for e, nothing else - whatever follows in the source (s2) is parsed
@@ -979,7 +952,6 @@ Proof.
   destruct (expand_head (e :: s2) e s2 eq_refl S2 (proj2 (proj1 (mults_ok_app _ _) MO)) He) as (post & ->).
   rewrite (emit_steps_terminated mp _ e post (expand_not_end s1 S1 NE) Le). reflexivity.
 Qed.
-Print Assumptions movement_statement_compiles_terminated.
 
 (* S6. mart statement *)
 Theorem mart_statement_accepted : forall switches env_errors consts f hd kw name g src cl rest,
@@ -991,7 +963,6 @@ Proof.
   rewrite (parse_mart_header sw ee consts f hd kw name g _ H) by (apply app_nonempty; discriminate).
   rewrite (mart_list_accepted sw ee src cl rest [] f S Hc LF). reflexivity.
 Qed.
-Print Assumptions mart_statement_accepted.
 
 Theorem mart_statement_rejected : forall switches env_errors consts f hd kw name g src b r,
   stmt_header hd kw name g -> item_list src -> ttype b <> RBRACE -> ttype b <> PORYSWITCH -> ttype b <> IDENT ->
@@ -1002,7 +973,6 @@ Proof.
   rewrite (parse_mart_header sw ee consts f hd kw name g _ H) by (apply app_nonempty; discriminate).
   rewrite (mart_list_rejected sw ee src b r [] f S H1 H2 H3 LF). reflexivity.
 Qed.
-Print Assumptions mart_statement_rejected.
 
 Theorem mart_statement_sound : forall switches env_errors consts f ts tp ts',
   eof_ended ts -> parse_mart switches env_errors consts f ts = Parser.Ok (tp, ts') ->
@@ -1023,7 +993,6 @@ Proof.
   destruct (mart_list_sound_poryswitch sw ee f body [] mv ts4 MV) as (src & ER & S & EM & CL).
   exists h, n, lb, body, g, src. repeat (split; [assumption|]). subst ts2 mv. reflexivity.
 Qed.
-Print Assumptions mart_statement_sound.
 
 Theorem mart_top_output : forall mp tl opt name g kw items itoks,
   emit_top mp tl opt (TMart name g kw items itoks) =
@@ -1047,7 +1016,6 @@ Proof.
   rewrite mart_top_output. change (fun tk => creplace consts (tlit tk)) with (item_value consts).
   rewrite (emit_items_unterminated mp (item_value consts) src NE). reflexivity.
 Qed.
-Print Assumptions mart_statement_compiles_unterminated.
 
 (* S8. COMPOSITION, an item whose value is ITEM_NONE (e: the first): the items before it, then exactly one ITEM_NONE;
    e and everything after it (s2) is parsed - it must consist of identifiers - but not emitted *)
@@ -1064,7 +1032,6 @@ Proof.
   rewrite mart_top_output. change (fun tk => creplace consts (tlit tk)) with (item_value consts).
   rewrite (emit_items_terminated mp (item_value consts) s1 e s2 NE He). reflexivity.
 Qed.
-Print Assumptions mart_statement_compiles_terminated.
 
 (* ================================================================================================================ *)
 (* 7. moves( steps ) inside a command: the hoisted movement                                                         *)
@@ -1078,7 +1045,6 @@ Proof.
   rewrite (expect_peek_cons2 LPAREN mvtok lp _ Hlp). rewrite (adv_cons lp (src ++ cl :: rest)) by (apply app_nonempty; discriminate).
   unfold movement_value. apply (movement_list_accepted sw ee RPAREN src cl rest [] f rparen_closing S MO Hc LF).
 Qed.
-Print Assumptions moves_operator_accepted.
 
 Theorem moves_operator_rejected : forall switches env_errors f mvtok lp src rest b msg,
   ttype lp = LPAREN -> step_list src -> mults_ok src -> rest <> [] -> follows_ok src (cur rest) ->
@@ -1089,7 +1055,6 @@ Proof.
   rewrite (expect_peek_cons2 LPAREN mvtok lp _ Hlp). rewrite (adv_cons lp (src ++ rest)) by (apply app_nonempty; exact NE).
   unfold movement_value. apply (movement_list_rejected sw ee RPAREN src rest b msg [] f rparen_closing S MO NE FO ST LF).
 Qed.
-Print Assumptions moves_operator_rejected.
 
 (* every accepted moves(...) (poryswitches included) *)
 Theorem moves_operator_sound : forall switches env_errors f ts mv ts',
@@ -1108,7 +1073,6 @@ Proof.
   destruct (movement_list_sound_poryswitch sw ee RPAREN f (y :: r) [] mv ts' H) as (src & ER & S & MO & EM & CL).
   exists m, lp, (y :: r), src. repeat (split; [first [reflexivity|assumption]|]). exact EM.
 Qed.
-Print Assumptions moves_operator_sound.
 
 (* D2. hence moves( steps ) is a legal piece of a command argument in the grammar of CmdArgs.v, with the expansion as
    its movement list: all theorems of CmdArgs.v about commands apply (command_with_arguments,
@@ -1122,7 +1086,6 @@ Proof.
   apply moves_operator_accepted; try assumption.
   cbn [List.length] in LF. rewrite app_length in LF. cbn [List.length] in LF. pose proof (nelems_le src). lia.
 Qed.
-Print Assumptions moves_piece_wf.
 
 (* D3. the argument that contains moves(...) is, after hoisting and patching, the label under which the final movement
    table knows the expansion *)
@@ -1173,7 +1136,6 @@ Proof.
   - pose proof (one_inline_piece g1' g2' g1 g2 (CmdArgs.PMoves lt' clo' mv') (CmdArgs.PMoves lt clo mv) Q1 P1 eq_refl eq_refl Eg) as X.
     injection X as _ _ X. rewrite <- X. exact Hf.
 Qed.
-Print Assumptions moves_argument_becomes_label.
 
 (* D3b. inside the argument list of a command: at the token 'moves' the operator is run, its list is recorded for
    argument number [length args] of this command, an empty placeholder stands in the argument; an error of the list is
@@ -1191,7 +1153,6 @@ Proof.
   intros sw ee pf consts f script cmdtok cidv ts depth parts args imp H. rewrite CmdArgs.command_args_unfold.
   unfold curis, is. rewrite H. tts. cbn [andb]. reflexivity.
 Qed.
-Print Assumptions command_args_at_moves.
 
 (* D4. the hoisted movement in the output of the program *)
 Lemma steps_out_ext : forall a b, map tlit a = map tlit b -> steps_out a = steps_out b.
@@ -1227,7 +1188,6 @@ Proof.
   injection H as <-. destruct (emit_tops_block mp _ opt _ _ _ _ _ _ E I T) as (a & b & ->).
   exists a, (b ++ emit_texts mp (texts p) n). rewrite <- !app_assoc. reflexivity.
 Qed.
-Print Assumptions program_output_has_block.
 
 (* The label that stands in the command for moves( src ) (moves_argument_becomes_label) is defined exactly once in the
    program, as a local movement whose step literals are those of the expansion of src, and this block is in the output.
@@ -1254,7 +1214,6 @@ Proof.
   destruct (program_output_has_block opt mp p is _ _ HE I (movement_top_output mp _ opt l false tk steps)) as (a & b & ->).
   exists a, b. auto.
 Qed.
-Print Assumptions hoisted_moves_block.
 
 (* without line markers: the lines of the block are determined by the source list alone *)
 Theorem hoisted_moves_lines : forall autovars switches parse_format ts p st src l opt is,
@@ -1270,7 +1229,6 @@ Proof.
   destruct (hoisted_moves_block av sw pf ts p st src l opt None is HP HT S HA NC1 NC2 HE) as (_ & tk & steps & a & b & I & EQ & ->).
   exists a, b. cbn [marker app]. rewrite (Props1.emit_steps_lines None steps eq_refl), (steps_out_ext _ _ EQ). reflexivity.
 Qed.
-Print Assumptions hoisted_moves_lines.
 
 (* the literals written for a step list, in the words of the property (a reading of Props1.steps_out) *)
 Theorem steps_out_unterminated : forall l, Forall not_end l -> steps_out l = map tlit l ++ [t "step_end"].
@@ -1284,8 +1242,6 @@ Proof.
   - rewrite He, text_eqb_refl. reflexivity.
   - rewrite (text_eqb_false _ _ Hs), IH. reflexivity.
 Qed.
-Print Assumptions steps_out_unterminated.
-Print Assumptions steps_out_terminated.
 
 (* ================================================================================================================ *)
 (* 7b. Whole programs: every movement / mart statement of the author in an accepted program is the result of the     *)
@@ -1402,8 +1358,6 @@ Proof.
   exists h, nm, lb, body. repeat (split; [first [assumption|reflexivity]|]). exact ER.
 Qed.
 End PROGRAM.
-Print Assumptions program_movement_statements.
-Print Assumptions program_mart_statements.
 
 (* P1b. the movement table only grows while the program is parsed: the label that a command received for its moves(...)
    when its script was hoisted (h' of moves_argument_becomes_label; in parse_tops the parsing goes on with ph := h') is
@@ -1433,7 +1387,6 @@ Proof.
     destruct (add_implicit imp (ph st)) as [h' ps] eqn:EA. eapply IH; [exact H|]. cbn [ph]. eapply add_implicit_table_grows; eassumption.
   - destruct (parse_const f (pconsts st) ts) as [[c' ts1]| | |]; try discriminate H. eapply IH; [exact H|exact A].
 Qed.
-Print Assumptions movement_table_grows.
 
 (* P2. END TO END for the blocks: in the output of an accepted program every movement top (statement or hoisted) is
    the block  label, step lines up to and including the first step_end else all steps and one step_end;  every mart top
@@ -1450,7 +1403,6 @@ Proof.
   exists a, b. split; [reflexivity|]. split; [apply emit_steps_unterminated|].
   intros pre e post -> F He. apply emit_steps_terminated; assumption.
 Qed.
-Print Assumptions program_movement_block.
 
 Theorem program_mart_block : forall opt mp p is n g tk (val : token -> text) itoks,
   emit_program_instrs opt mp p = Emitter.Ok is -> In (TMart n g tk (map val itoks) itoks) (tops p) ->
@@ -1464,7 +1416,6 @@ Proof.
   exists a, b. split; [reflexivity|]. split; [apply emit_items_unterminated|].
   intros pre e post -> F He. apply emit_items_terminated; assumption.
 Qed.
-Print Assumptions program_mart_block.
 
 (* ================================================================================================================ *)
 (* 8. Commas are pure separators: never required, and removing them changes neither acceptance nor the result       *)
@@ -1489,7 +1440,6 @@ Proof.
     + rewrite (expand_comma c s Hc). exact IH2.
     + rewrite (multipliers_comma c s Hc). exact IH3.
 Qed.
-Print Assumptions commas_are_irrelevant.
 
 (* ================================================================================================================ *)
 (* 8b. Decimal multipliers: for a literal of decimal digits without a leading zero, "reads as a number in 1..9999"   *)
@@ -1546,7 +1496,6 @@ Proof.
   - destruct (Z.gtb_spec (dec_value (d :: ds) 0) 9223372036854775807); cbn [orb]; [reflexivity|].
     destruct (Z.ltb_spec (dec_value (d :: ds) 0) (-9223372036854775808)); [lia|reflexivity].
 Qed.
-Print Assumptions decimal_literal_value.
 
 (* so: 'x * N' with N a decimal literal is accepted exactly when 1 <= N <= 9999, and then stands for N copies *)
 Theorem decimal_multiplier_ok : forall n d ds, tlit n = d :: ds -> (49 <= d <= 57)%N -> Forall dec_digit ds ->
@@ -1558,7 +1507,6 @@ Proof.
   - split; [split|]; [intros (k & X & _); discriminate X|lia|lia].
   - split; [split|]; [intros (k & X & R); injection X as <-; exact R|intros R; eexists; split; [reflexivity|exact R]|reflexivity].
 Qed.
-Print Assumptions decimal_multiplier_ok.
 
 (* ================================================================================================================ *)
 (* 9. Examples: the hypotheses are satisfiable, the model run agrees; boundary cases                                *)
